@@ -50,6 +50,9 @@ func wantUses(src []trsrc.Entity) map[string]int {
 				if l.LK == "block" && l.N != "" {
 					want["block:"+keys[i]+"/"+l.N] += 0
 				}
+				if l.LK == "block" && l.N == "" {
+					want["block:"+keys[i]+"/n0"] += 0 // the patterns have at most one unnamed block per function: %0
+				}
 			}
 		case e.K == "comdat":
 			want["comdat:"+e.N] += 0
@@ -107,6 +110,8 @@ func gotUses(m *ir.Module, uses map[interface{}]int) map[string]int {
 		for _, b := range f.Blocks {
 			if !b.IsUnnamed() {
 				got["block:"+k+"/"+b.LocalName] = uses[b]
+			} else if b.LocalID == 0 {
+				got["block:"+k+"/n0"] = uses[b]
 			}
 		}
 	}
